@@ -322,6 +322,13 @@ def rule_E(run, prog):
         ekeys = unitflow.energy_keys(prog, cls)
         if not ekeys or "reorg" not in ekeys:
             raise AnalysisError("%s.energy_params not found or without 'reorg'" % cname)
+        init0, sinks = unitflow.constructor_loop_states(prog, cls, ekeys)
+        for var, state, node in sinks:
+            run.obligation(rid, "%s.__init__" % cname, state == "INT", key="units:ctor-lamb:" + norm(node)[:40],
+                           message="the constructor adds %s to the reorganisation energy while %s iterates over the "
+                                   "dictionaries as given by the caller (current units); self.lamb is kept in internal "
+                                   "units" % (norm(node.value)[:40], var), loc=init0.loc(node),
+                           sample={"loop_variable": var, "state": state})
         init, disp = unitflow.dispatch_states(prog, cls, ekeys)
         if len(disp) < 5:
             raise AnalysisError("%s.__init__: only %d builder calls found" % (cname, len(disp)))
